@@ -3,6 +3,7 @@ package c04
 import (
 	"errors"
 	"fmt"
+	"net"
 	"os"
 	"strconv"
 	"sync"
@@ -28,10 +29,16 @@ import (
 type req struct{ id int64 }
 type rep struct{ id int64 }
 
-type echo struct{ silent bool }
+type echo struct {
+	silent bool
+	delay  time.Duration // reply after this long (0 = at once)
+}
 
 func (e *echo) OnReceive(ctx vivid.ActorContext) {
 	if m, ok := ctx.Message().(*req); ok && !e.silent {
+		if e.delay > 0 {
+			time.Sleep(e.delay)
+		}
 		ctx.Reply(&rep{id: m.id})
 	}
 }
@@ -231,6 +238,80 @@ func TestC04RealClock(t *testing.T) {
 			sv := b.([2]string)
 			if !vstat.Fail(sv[0], sv[1], nil) {
 				t.Fatalf("VERIF-FAIL sig=%s :: %s", sv[0], sv[1])
+			}
+		}
+	}
+}
+
+// TestC04SlowForwarder: "Result/Wait never block beyond completion" when delivering the result to a forwarder is slow.
+// The forwarder is a reference to another system that cannot be reached (remoting enabled, connection refused): the
+// library retries the delivery with back-off on the goroutine that completes the future (seconds). A waiter of that
+// future has nothing to do with the forwarder: it returns when the future completes (by its reply, its timeout or
+// Close), and a PipeTo that registered before the completion does not change that.
+func TestC04SlowForwarder(t *testing.T) {
+	rounds := 3
+	if os.Getenv("VERIF_TIER") == "thorough" {
+		rounds = 12
+	}
+	seed, _ := strconv.ParseUint(os.Getenv("VERIF_RSEED"), 10, 64)
+	for r := 0; r < rounds; r++ {
+		x := seed + uint64(r)*0x9e3779b97f4a7c15
+		cause := []string{"timeout", "reply", "close"}[x%3]
+		tmo := []time.Duration{50 * time.Millisecond, 120 * time.Millisecond, 300 * time.Millisecond}[(x>>8)%3]
+		waiters := 1 + int((x>>16)%3)
+		vt.SetCase(map[string]any{"test": "TestC04SlowForwarder", "rapid_seed": os.Getenv("VERIF_RSEED"), "round": r, "cause": cause})
+		l, err := net.Listen("tcp", "127.0.0.1:0")
+		if err != nil {
+			t.Fatal(err)
+		}
+		bind := l.Addr().String()
+		_ = l.Close()
+		l2, _ := net.Listen("tcp", "127.0.0.1:0")
+		dead := l2.Addr().String() // nobody listens here once it is closed: connections are refused
+		_ = l2.Close()
+		sys := actor.NewSystem(vivid.WithActorSystemLogger(hlog.Nop), vivid.WithActorSystemRemoting(bind))
+		if err := sys.Start(); err != nil {
+			t.Fatal(err)
+		}
+		target, _ := sys.ActorOf(&echo{silent: cause != "reply", delay: tmo / 2})
+		fwd, err := sys.CreateRef(dead, "/forwarder")
+		if err != nil {
+			t.Fatal(err)
+		}
+		askTmo := tmo
+		if cause != "timeout" {
+			askTmo = 30 * time.Second
+		}
+		f := sys.Ask(target, &req{id: int64(r) + 1}, askTmo)
+		_ = f.PipeTo(vivid.ActorRefs{fwd}) // registers: the future is still pending
+		t0 := time.Now()
+		if cause == "close" {
+			go func() { time.Sleep(tmo / 2); f.Close(errors.New("verif: closed")) }()
+		}
+		returned := make(chan time.Duration, waiters)
+		for k := 0; k < waiters; k++ {
+			go func() { _ = f.Wait(); returned <- time.Since(t0) }()
+		}
+		// completion is due after tmo (timeout) or tmo/2 (reply, close); the delivery to the forwarder takes seconds
+		limit := tmo + 1500*time.Millisecond
+		var v [2]string
+		for k := 0; k < waiters && v[0] == ""; k++ {
+			select {
+			case d := <-returned:
+				if d > limit {
+					v = [2]string{"C04/blocks-beyond-completion|slow-forwarder", fmt.Sprintf("the future completed by %s after at most %v, its waiter returned after %v: it waited for the delivery of the result to an unreachable forwarder", cause, tmo, d)}
+				}
+			case <-time.After(limit + 500*time.Millisecond):
+				v = [2]string{"C04/blocks-beyond-completion|slow-forwarder", fmt.Sprintf("the future completed by %s after at most %v; %v later its waiter is still blocked: it waits for the delivery of the result to an unreachable forwarder (which the library retries for seconds)", cause, tmo, limit+500*time.Millisecond)}
+			}
+		}
+		_ = sys.Stop(20 * time.Second)
+		vstat.Case(vstat.Hash("slowfwd", r, seed), true, []string{"slow-forwarder", "cause:" + cause}, func() any {
+			return map[string]any{"cause": cause, "timeout": tmo.String(), "waiters": waiters}
+		})
+		if v[0] != "" {
+			if !vstat.Fail(v[0], v[1], nil) {
+				t.Fatalf("VERIF-FAIL sig=%s :: %s", v[0], v[1])
 			}
 		}
 	}
